@@ -97,7 +97,59 @@ func c10CliCases(cx *ctx) {
 	for range hdrs {
 		total += len(answers) * reps
 	}
+	total += 6 // the encryption cases below
 	left = int64(total)
+	// encryption: -p together with any other source of recipients must be refused — under a terminal that WOULD answer
+	// the passphrase prompts (without one -p fails anyway), before anything is asked and with nothing written
+	for _, other := range []string{"r", "R", "i", "j", "e-j", "i-j"} {
+		other := other
+		rr := r.Fork()
+		cx.ru.Do(func() *h.Case {
+			defer func() {
+				if atomic.AddInt64(&left, -1) == 0 {
+					e.cleanup()
+				}
+			}()
+			wd, _ := os.MkdirTemp(e.base, "c10p-")
+			defer os.RemoveAll(wd)
+			key := e.keys[0]
+			os.WriteFile(filepath.Join(wd, "in.txt"), rr.Bytes(20), 0644)
+			os.WriteFile(filepath.Join(wd, "recs.txt"), []byte(key.recLine+"\n"), 0644)
+			os.WriteFile(filepath.Join(wd, "key.txt"), key.idFile, 0600)
+			args := []string{"-p"}
+			switch other {
+			case "r":
+				args = append(args, "-r", key.recLine)
+			case "R":
+				args = append(args, "-R", "recs.txt")
+			case "i":
+				args = append(args, "-e", "-i", "key.txt")
+			case "j":
+				args = append(args, "-j", "nonesuch")
+			case "e-j":
+				args = append(args, "-e", "-j", "nonesuch")
+			default:
+				args = append(args, "-e", "-i", "key.txt", "-j", "nonesuch")
+			}
+			args = append(args, "-o", "out.age", "in.txt")
+			o := e.runPty(&procSpec{bin: e.age, args: args, wd: wd, stdout: "u", fsize: -1, umask: 0o22}, &ttySpec{answers: []string{"pw pw", "pw pw"}})
+			_, statErr := os.Stat(filepath.Join(wd, "out.age"))
+			prompted := bytes.Contains(o.shown, []byte("assphrase"))
+			oracle := ""
+			switch {
+			case o.timedOut:
+				// (not judged: a hang is not what this case is about)
+			case o.exit == 0:
+				oracle = "age -p together with -" + other + " succeeded: a passphrase recipient must stand alone"
+			case statErr == nil:
+				oracle = "age -p together with -" + other + " was refused but left an output file behind"
+			case prompted:
+				oracle = "age -p together with -" + other + " asked for the passphrase before refusing"
+			}
+			return &h.Case{Kind: "cli-passphrase-with-others", Impl: fmt.Sprintf("exit=%d prompted=%v out=%v", o.exit, prompted, statErr == nil), Oracle: oracle,
+				NonTrivial: !o.timedOut, Note: "age " + strings.Join(args, " ") + " under a terminal; stderr=" + firstLine(o.stderr)}
+		})
+	}
 	for _, hd := range hdrs {
 		for _, ans := range answers {
 			for rep := 0; rep < reps; rep++ {
